@@ -1,1 +1,185 @@
--- property theorems of C11 (not built yet)
+/-
+  C11 — vertical structure is hydrostatic, ordered and one value per layer.
+  Theorems about `TaurexModel/Structure.lean` (the definitions `driver_c11` executes on Float), over ℝ.
+  `scaleProps kb G M R T pl mu` mirrors `Planet.calculate_scale_properties`; `logLevels`/`layerPressures` mirror
+  `SimplePressureProfile.compute_pressure_profile`; `views` mirrors the profile bookkeeping of `SimpleForwardModel`.
+-/
+import Proofs.C11
+
+namespace Taurex.C11
+open Taurex Taurex.Structure
+
+/-- On the log-spaced grid (`pmin < pmax`, at least one layer) the `n+1` pressure levels decrease strictly from
+    the surface (`pmax`) to the top (`pmin`). -/
+theorem levels_strict_anti {n : ℕ} (hn : 1 ≤ n) {pmin pmax : ℝ} (h0 : 0 < pmin) (h : pmin < pmax) :
+    (logLevels n pmin pmax).Pairwise (· > ·) ∧ (logLevels n pmin pmax).length = n + 1 ∧
+      (logLevels n pmin pmax).head? = some pmax ∧ (logLevels n pmin pmax).getLast? = some pmin :=
+  ⟨logLevels_pairwise hn h0 h, logLevels_length n pmin pmax, logLevels_head pmin (lt_trans h0 h),
+    logLevels_last hn pmax h0⟩
+
+example : (logLevels 3 (100 : ℝ) 100000).Pairwise (· > ·) :=
+  (levels_strict_anti (n := 3) (by norm_num) (by norm_num) (by norm_num)).1
+
+/-- Each layer pressure is the geometric mean of its two levels and lies strictly between them, for any strictly
+    decreasing positive levels (in particular the log-spaced ones). -/
+theorem layer_geomean {lv : List ℝ} (hpos : ∀ p ∈ lv, 0 < p) (hdec : lv.Pairwise (· > ·)) {l : ℕ}
+    (hl : l + 1 < lv.length) :
+    ∃ p lo up, (layerPressures lv)[l]? = some p ∧ lv[l]? = some lo ∧ lv[l + 1]? = some up ∧
+      p * p = lo * up ∧ up < p ∧ p < lo := by
+  have hl0 : l < lv.length := by omega
+  have hup : 0 < lv[l + 1] := hpos _ (List.getElem_mem hl)
+  have hlt : lv[l + 1] < lv[l] := by
+    have := List.pairwise_iff_getElem.1 hdec l (l + 1) hl0 hl (by omega)
+    exact this
+  obtain ⟨h1, h2, h3⟩ := geomean_between hup hlt
+  refine ⟨_, lv[l], lv[l + 1], ?_, List.getElem?_eq_getElem hl0, List.getElem?_eq_getElem hl, h1, h2, h3⟩
+  rw [layerPressures_getElem?, List.getElem?_eq_getElem hl0, List.getElem?_eq_getElem hl]
+  rfl
+
+example : ∃ p lo up, (layerPressures (logLevels 3 (100 : ℝ) 100000))[1]? = some p ∧
+    (logLevels 3 (100 : ℝ) 100000)[1]? = some lo ∧ (logLevels 3 (100 : ℝ) 100000)[2]? = some up ∧
+    p * p = lo * up ∧ up < p ∧ p < lo :=
+  layer_geomean (logLevels_pos _ _ _)
+    (levels_strict_anti (n := 3) (by norm_num) (by norm_num) (by norm_num)).1
+    (by rw [logLevels_length]; norm_num)
+
+/-- The number of layer pressures is the number of levels minus one. -/
+theorem layers_length (n : ℕ) (pmin pmax : ℝ) : (layerPressures (logLevels n pmin pmax)).length = n := by
+  rw [layerPressures_length, logLevels_length]; rfl
+
+/-- Altitude starts at zero at the surface, for every input. -/
+theorem z0_zero (kb G M R : ℝ) (T pl mu : List ℝ) : (scaleProps kb G M R T pl mu).z.head? = some 0 := by
+  rw [scaleProps_z]
+  unfold zsOf
+  match T, mu, pl with
+  | [], _, _ => simp [scaleLoop]
+  | _ :: _, [], _ => simp [scaleLoop]
+  | _ :: _, _ :: _, [] => simp [scaleLoop]
+  | _ :: _, _ :: _, [_] => simp [scaleLoop]
+  | t :: ts, m :: ms, p0 :: p1 :: ps => rw [scaleLoop_cons]; simp
+
+example : (scaleProps 1 1 1 1 [1000, 900, 800] [100000, 10000, 1000, 100] [2, 2, 2] : ScaleProps ℝ).z.head?
+    = some 0 := z0_zero ..
+
+/-- Hydrostatic step: in every layer `dz = H ln(P_lower/P_upper)`, `H = k T/(mu g)`, `g = G M/(R+z)²` with `z`
+    the altitude of the layer's lower boundary, and the next boundary is `z + dz`.  (Positive levels are needed
+    only to turn the code's `-ln(P_upper/P_lower)` into `ln(P_lower/P_upper)`.) -/
+theorem dz_formula (kb G M R : ℝ) {T pl mu : List ℝ} (hmu : mu.length = T.length)
+    (hpl : pl.length = T.length + 1) (hpos : ∀ p ∈ pl, 0 < p) {l : ℕ} (hl : l < T.length) :
+    let s := scaleProps kb G M R T pl mu
+    s.dz.getD l 0 = s.H.getD l 0 * Real.log (pl.getD l 0 / pl.getD (l + 1) 0) ∧
+    s.H.getD l 0 = kb * T.getD l 0 / (mu.getD l 0 * s.g.getD l 0) ∧
+    s.g.getD l 0 = G * M / ((R + s.z.getD l 0) * (R + s.z.getD l 0)) ∧
+    s.z.getD (l + 1) 0 = s.z.getD l 0 + s.dz.getD l 0 := by
+  intro s
+  obtain ⟨L, hL, h1, h2, h3⟩ := scaleLoop_get kb (G * M) R l T mu pl 0 (surfaceGravity (G * M) R) hl hmu hpl
+    (gravityAt_zero _ _).symm
+  obtain ⟨L', hL', h4, h5⟩ := scaleLoop_cumulative kb (G * M) R l T mu pl 0 (surfaceGravity (G * M) R) hl hmu hpl
+  have hLL : L' = L := by rw [hL] at hL'; exact (Option.some.inj hL').symm
+  subst hLL
+  have hH : s.H.getD l 0 = L'.H := by
+    simp [s, scaleProps, List.getD_eq_getElem?_getD, hL]
+  have hg : s.g.getD l 0 = L'.g := by
+    simp [s, scaleProps, List.getD_eq_getElem?_getD, hL]
+  have hdz : s.dz.getD l 0 = L'.dz := by
+    simp [s, scaleProps, List.getD_eq_getElem?_getD, hL]
+  have hz : s.z.getD l 0 = L'.z := h4
+  have hz1 : s.z.getD (l + 1) 0 = L'.z + L'.dz := h5
+  have hl1 : l + 1 < pl.length := by omega
+  have hl0 : l < pl.length := by omega
+  have hp0 : 0 < pl.getD l 0 := by
+    rw [List.getD_eq_getElem?_getD, List.getElem?_eq_getElem hl0]; exact hpos _ (List.getElem_mem hl0)
+  have hp1 : 0 < pl.getD (l + 1) 0 := by
+    rw [List.getD_eq_getElem?_getD, List.getElem?_eq_getElem hl1]; exact hpos _ (List.getElem_mem hl1)
+  refine ⟨?_, ?_, ?_, ?_⟩
+  · rw [hdz, hH, h1, Real.log_div hp1.ne' hp0.ne', Real.log_div hp0.ne' hp1.ne']; ring
+  · rw [hH, hg, h2]
+  · rw [hg, hz, h3]; rfl
+  · rw [hz1, hz, hdz]
+
+example : let s : ScaleProps ℝ := scaleProps 1 1 1 1 [1000, 900, 800] [100000, 10000, 1000, 100] [2, 2, 2]
+    s.dz.getD 2 0 = s.H.getD 2 0 * Real.log ((1000 : ℝ) / 100) := by
+  have h := (dz_formula 1 1 1 1 (T := [1000, 900, 800]) (pl := [100000, 10000, 1000, 100]) (mu := [2, 2, 2])
+    rfl rfl (by intro p hp; simp at hp; rcases hp with rfl | rfl | rfl | rfl <;> norm_num) (l := 2)
+    (by simp)).1
+  simpa using h
+
+/-- For any strictly decreasing positive levels and positive `k, G M, R, T, mu`: every thickness, scale height
+    and gravity is positive (induction over the layers). -/
+theorem dz_pos {kb G M R : ℝ} (hkb : 0 < kb) (hG : 0 < G) (hM : 0 < M) (hR : 0 < R) {T pl mu : List ℝ}
+    (hT : ∀ t ∈ T, 0 < t) (hmu : ∀ m ∈ mu, 0 < m) (hpos : ∀ p ∈ pl, 0 < p) (hdec : pl.Pairwise (· > ·)) :
+    let s := scaleProps kb G M R T pl mu
+    (∀ d ∈ s.dz, 0 < d) ∧ (∀ h ∈ s.H, 0 < h) ∧ (∀ g ∈ s.g, 0 < g) := by
+  intro s
+  have hgm : 0 < G * M := mul_pos hG hM
+  obtain ⟨hL, _, _⟩ := scaleLoop_pos hkb hgm hR T mu pl 0 _ (le_refl 0) (surfaceGravity_pos hgm hR) hT hmu hpos hdec
+  refine ⟨?_, ?_, ?_⟩
+  · intro d hd
+    obtain ⟨L, hLm, rfl⟩ := List.mem_map.1 hd
+    exact (hL L hLm).1
+  · intro h hh
+    obtain ⟨L, hLm, rfl⟩ := List.mem_map.1 hh
+    exact (hL L hLm).2.1
+  · intro g hg
+    obtain ⟨L, hLm, rfl⟩ := List.mem_map.1 hg
+    exact (hL L hLm).2.2.1
+
+/-- … and the boundary altitudes increase strictly (so altitude is non-negative and ordered like the levels). -/
+theorem z_strict_mono {kb G M R : ℝ} (hkb : 0 < kb) (hG : 0 < G) (hM : 0 < M) (hR : 0 < R) {T pl mu : List ℝ}
+    (hT : ∀ t ∈ T, 0 < t) (hmu : ∀ m ∈ mu, 0 < m) (hpos : ∀ p ∈ pl, 0 < p) (hdec : pl.Pairwise (· > ·)) :
+    (scaleProps kb G M R T pl mu).z.Pairwise (· < ·) ∧ ∀ x ∈ (scaleProps kb G M R T pl mu).z, 0 ≤ x := by
+  have hgm : 0 < G * M := mul_pos hG hM
+  obtain ⟨_, hP, hB⟩ := scaleLoop_pos hkb hgm hR T mu pl 0 _ (le_refl 0) (surfaceGravity_pos hgm hR) hT hmu hpos hdec
+  exact ⟨hP, hB⟩
+
+/-- non-vacuity: a 3-layer Jupiter (SI units) on the log-spaced grid 1e5 … 1e2 Pa -/
+example : let s : ScaleProps ℝ := (scaleProps 1.380649e-23 6.6743e-11 1.898e27 7.1492e7 [1000, 900, 800]
+      (logLevels 3 100 100000) [3.8e-27, 3.7e-27, 3.6e-27])
+    (∀ d ∈ s.dz, 0 < d) ∧ s.z.Pairwise (· < ·) := by
+  have hdec := (levels_strict_anti (n := 3) (pmin := 100) (pmax := 100000) (by norm_num) (by norm_num)
+    (by norm_num)).1
+  have hT : ∀ t ∈ ([1000, 900, 800] : List ℝ), 0 < t := by
+    intro t ht; simp at ht; rcases ht with rfl | rfl | rfl <;> norm_num
+  have hmu : ∀ m ∈ ([3.8e-27, 3.7e-27, 3.6e-27] : List ℝ), 0 < m := by
+    intro t ht; simp at ht; rcases ht with rfl | rfl | rfl <;> norm_num
+  exact ⟨(dz_pos (by norm_num) (by norm_num) (by norm_num) (by norm_num) hT hmu (logLevels_pos _ _ _) hdec).1,
+    (z_strict_mono (by norm_num) (by norm_num) (by norm_num) (by norm_num) hT hmu (logLevels_pos _ _ _) hdec).1⟩
+
+/-- One value per layer: with `n` temperatures, `n` molecular weights and `n+1` levels, `z` has `n+1` entries,
+    `H`, `g`, `dz` and the density have `n`, and every per-layer view the forward model stores (altitude,
+    scale height, gravity, thickness) has exactly `n`. -/
+theorem lengths (kb G M R : ℝ) {T pl mu P : List ℝ} {n : ℕ} (hT : T.length = n) (hmu : mu.length = n)
+    (hpl : pl.length = n + 1) (hP : P.length = n) :
+    let s := scaleProps kb G M R T pl mu
+    let v := views s
+    s.z.length = n + 1 ∧ s.H.length = n ∧ s.g.length = n ∧ s.dz.length = n ∧
+    v.altitudeProfile.length = n ∧ v.scaleheightProfile.length = n ∧ v.gravityProfile.length = n ∧
+    v.deltaz.length = n ∧ v.altitudeBoundaries.length = n + 1 ∧ (density kb P T).length = n := by
+  intro s v
+  have hlen := scaleLoop_length kb (G * M) R T mu pl 0 (surfaceGravity (G * M) R) (by omega) (by omega)
+  have hz : s.z.length = n + 1 := by simp [s, scaleProps, hlen, hT]
+  have hH : s.H.length = n := by simp [s, scaleProps, hlen, hT]
+  have hg : s.g.length = n := by simp [s, scaleProps, hlen, hT]
+  have hdz : s.dz.length = n := by simp [s, scaleProps, hlen, hT]
+  refine ⟨hz, hH, hg, hdz, ?_, hH, hg, hdz, hz, ?_⟩
+  · show s.z.dropLast.length = n
+    simp [hz]
+  · simp [density, List.length_zipWith, hP, hT]
+
+example : let s : ScaleProps ℝ := scaleProps 1 1 1 1 [1000, 900] [100000, 1000, 10] [2, 2]
+    (views s).gravityProfile.length = 2 ∧ (views s).scaleheightProfile.length = 2 :=
+  let h := lengths 1 1 1 1 (T := [1000, 900]) (pl := [100000, 1000, 10]) (mu := [2, 2]) (P := [1, 1]) (n := 2)
+    rfl rfl rfl rfl
+  ⟨h.2.2.2.2.2.2.1, h.2.2.2.2.2.1⟩
+
+/-- Number density is `P/(kT)` layer by layer. -/
+theorem density_formula (kb : ℝ) (P T : List ℝ) (l : ℕ) :
+    (density kb P T)[l]? = (P[l]?).bind (fun p => (T[l]?).map (fun t => p / (kb * t))) := by
+  unfold density
+  rw [List.getElem?_zipWith]
+  cases P[l]? <;> cases T[l]? <;> rfl
+
+example : (density (2 : ℝ) [10, 20] [5, 4])[1]? = some (20 / (2 * 4)) := by
+  rw [density_formula]; rfl
+
+end Taurex.C11
